@@ -53,6 +53,9 @@ fn matrices() -> Vec<(&'static str, [i64; 16])> {
         ("rot90z", [0, -1, 0, 0, 1, 0, 0, 0, 0, 0, 1, 0, 0, 0, 0, 1]),
         ("proj-neg", [1, 0, 0, 0, 0, 1, 0, 2, 0, 0, 1, 0, 0, 0, 0, -1]),
         ("proj-w2", [2, 0, 0, 4, 0, 4, 0, 0, 0, 0, 2, -2, 0, 0, 0, 2]),
+        // projective row without any translation (w = z + 1, x + y + 2): divisions by w in {+-1, +-2, +-4} stay exact
+        ("persp-z", [2, 0, 0, 0, 0, 2, 0, 0, 0, 0, 2, 0, 0, 0, 1, 1]),
+        ("persp-xy", [4, 0, 0, 0, 0, -4, 0, 0, 0, 4, 4, 0, 1, 1, 0, 2]),
     ]
 }
 
@@ -89,8 +92,12 @@ struct Built<F> {
 }
 
 fn build<F: MathFunction + Clone>(case: &Case, shape_id: usize) -> Built<F> {
+    build_with(case, shape_id, HashMap::new())
+}
+
+fn build_with<F: MathFunction + Clone>(case: &Case, shape_id: usize, vars: HashMap<String, Var>) -> Built<F> {
     let mut ctx = Context::new();
-    let mut vars: HashMap<String, Var> = HashMap::new();
+    let mut vars = vars;
     let mut var_of = |name: &str| -> Var {
         *vars.entry(name.to_string()).or_insert_with(|| match name {
             "X" => Var::X,
@@ -254,6 +261,133 @@ fn run_case<F: MathFunction + Function<Trace = VmTrace> + Clone>(
     }
 }
 
+
+// ---------------------------------------------------------------------------------------------------------
+// Histories (C14): binding must not depend on where a shape's storage came from or on what an evaluator
+// object evaluated before.
+
+fn base_of<F: MathFunction + Clone>(backend: &str, b: &Built<F>, shape: &Shape<F>, values: &HashMap<String, i64>, supplied: &[String], p: [i64; 3], mat: Option<[i64; 16]>, mname: &str) -> Value {
+    let mut varmap: Vec<(String, usize)> = vec![];
+    for (name, var) in &b.vars {
+        if let Some(i) = shape.inner().vars().get(var) {
+            varmap.push((name.clone(), i));
+        }
+    }
+    varmap.sort();
+    json!({"backend": backend, "terms": b.terms.iter().map(|(n, w)| json!([n, w])).collect::<Vec<_>>(),
+        "values": values.iter().map(|(n, v)| json!([n, v])).collect::<Vec<_>>(), "supplied": supplied,
+        "point": p, "mat": mat.map(|m| m.to_vec()).unwrap_or_default(), "mname": mname,
+        "vars": varmap.iter().map(|(n, i)| json!([n, i])).collect::<Vec<_>>(), "nvars": shape.inner().vars().len(),
+        "allvars": b.vars.keys().collect::<Vec<_>>()})
+}
+
+fn emit_rec(w: &mut dyn Write, id: &mut usize, base: &Value, kind: &str, simplified: bool, r: Result<Value, String>) {
+    let mut j = base.clone();
+    j["ev"] = json!("bind");
+    j["id"] = json!(*id);
+    j["kind"] = json!(kind);
+    j["simplified"] = json!(simplified);
+    j["ok"] = json!(r.is_ok());
+    j["err"] = json!(r.as_ref().err().cloned().unwrap_or_default());
+    j["got"] = r.unwrap_or(json!([]));
+    writeln!(w, "{j}").unwrap();
+    *id += 1;
+}
+
+fn shape_vars<F>(b: &Built<F>, values: &HashMap<String, i64>) -> (ShapeVars<f32>, Vec<String>) {
+    let mut sv = ShapeVars::<f32>::new();
+    let mut supplied = vec![];
+    for (name, var) in &b.vars {
+        if let Some(ix) = var.index() {
+            sv.insert(ix, values[name] as f32);
+            supplied.push(name.clone());
+        }
+    }
+    (sv, supplied)
+}
+
+fn simplify_left<F: MathFunction + Function<Trace = VmTrace> + Clone>(b: &Built<F>, p: [i64; 3], sv: &ShapeVars<f32>, storage: Option<F::Storage>) -> Option<Shape<F>> {
+    let mut ie = Shape::<F>::new_interval_eval();
+    let tape = b.shape.ez_interval_tape();
+    let bx = |v: i64| Interval::new(v as f32 - 1.0, v as f32 + 1.0);
+    let (_, tr) = ie.eval_raw(&tape, bx(p[0]), bx(p[1]), bx(p[2]), None, sv).ok()?;
+    let tr = tr?.clone();
+    drop(tape);
+    match storage {
+        None => b.shape.ez_simplify(&tr).ok(),
+        Some(s) => {
+            let mut ws = F::Workspace::default();
+            b.shape.simplify(&tr, s, &mut ws).ok()
+        }
+    }
+}
+
+fn run_histories<F: MathFunction + Function<Trace = VmTrace> + Clone>(w: &mut dyn Write, id: &mut usize, backend: &str, rng: &mut Rng, rounds: usize) {
+    let pairs: [[&str; 2]; 4] = [["X", "Y"], ["w0", "w1"], ["Y", "w0"], ["Z", "X"]];
+    for round in 0..rounds {
+        // (1) storage recycled from the simplified child of A goes into the simplification of B, which meets
+        //     the same two variables in the opposite order
+        let names = pairs[round % pairs.len()];
+        let ca = Case { order: vec![names[0].into(), names[1].into()], supplied: vec![] };
+        let cb = Case { order: vec![names[1].into(), names[0].into()], supplied: vec![] };
+        let a = build_with::<F>(&ca, 1, HashMap::new());
+        let b = build_with::<F>(&cb, 1, a.vars.clone());
+        let mut values: HashMap<String, i64> = HashMap::new();
+        for (k, name) in b.vars.keys().enumerate() {
+            values.insert(name.clone(), 1 + k as i64 + rng.below(3) as i64 * 2);
+        }
+        let p: [i64; 3] = [rng.below(5) as i64 - 2, 3 - rng.below(3) as i64, rng.below(7) as i64 - 3];
+        let (sv, supplied) = shape_vars(&b, &values);
+        let storage = simplify_left(&a, p, &sv, None).and_then(|child| child.recycle());
+        let from = if storage.is_some() { "recycled" } else { "default" };
+        if let Some(child) = simplify_left(&b, p, &sv, storage) {
+            let base = base_of(backend, &b, &child, &values, &supplied, p, None, from);
+            let (x, y, z) = (p[0] as f32, p[1] as f32, p[2] as f32);
+            let tape = child.ez_point_tape();
+            let mut e = Shape::<F>::new_point_eval();
+            let r = vharness::catch(std::panic::AssertUnwindSafe(|| e.eval_raw(&tape, x, y, z, None, &sv).map(|(v, _)| json!([bits(v)])).map_err(|er| format!("{er}"))));
+            emit_rec(w, id, &base, "point", true, r.unwrap_or_else(|m| Err(format!("panic: {m}"))));
+            let tape = child.ez_interval_tape();
+            let mut e = Shape::<F>::new_interval_eval();
+            let r = vharness::catch(std::panic::AssertUnwindSafe(|| e.eval_raw(&tape, Interval::from(x), Interval::from(y), Interval::from(z), None, &sv).map(|(v, _)| json!(ibits(&v))).map_err(|er| format!("{er}"))));
+            emit_rec(w, id, &base, "interval", true, r.unwrap_or_else(|m| Err(format!("panic: {m}"))));
+        }
+        // (2) one bulk evaluator: many variables at n samples, then fewer variables at another n (and back)
+        let many: Vec<String> = ["w0", "w1", "w2", "X", "w3", "Y"].iter().take(3 + round % 4).map(|s| s.to_string()).collect();
+        let few: Vec<String> = [["Z"], ["w9"], ["X"]][round % 3].iter().map(|s| s.to_string()).collect();
+        let big = build_with::<F>(&Case { order: many, supplied: vec![] }, 0, HashMap::new());
+        let small = build_with::<F>(&Case { order: few, supplied: vec![] }, 0, HashMap::new());
+        let mut fe = Shape::<F>::new_float_slice_eval();
+        let mut ge = Shape::<F>::new_grad_slice_eval();
+        let order: Vec<(&Built<F>, usize, usize)> = if round % 2 == 0 { vec![(&big, 5, 4), (&small, 3, 2)] } else { vec![(&small, 7, 5), (&big, 3, 2), (&small, 3, 2)] };
+        for (bb, n, gn) in order {
+            let mut values: HashMap<String, i64> = HashMap::new();
+            for name in bb.vars.keys() {
+                values.insert(name.clone(), rng.below(9) as i64 - 4);
+            }
+            let (sv, supplied) = shape_vars(bb, &values);
+            let base = base_of(backend, bb, &bb.shape, &values, &supplied, p, None, "bulk-reuse");
+            let (x, y, z) = (p[0] as f32, p[1] as f32, p[2] as f32);
+            let tape = bb.shape.ez_float_slice_tape();
+            let (xs, ys, zs) = (vec![x; n], vec![y; n], vec![z; n]);
+            let r = vharness::catch(std::panic::AssertUnwindSafe(|| fe.eval_raw(&tape, &xs, &ys, &zs, None, fidget_core::shape::ShapeBulkEval::<F::FloatSliceEval>::var_value(&sv)).map(|o| o.to_vec()).map_err(|er| format!("{er}"))));
+            let r = r.unwrap_or_else(|m| Err(format!("panic: {m}")));
+            if n == 3 || r.is_err() {
+                emit_rec(w, id, &base, "float-values", false, r.map(|o| json!(o.iter().map(|v| bits(*v)).collect::<Vec<_>>())));
+            }
+            let tape = bb.shape.ez_grad_slice_tape();
+            let xs = vec![Grad::new(x, 1.0, 0.0, 0.0); gn];
+            let ys = vec![Grad::new(y, 0.0, 1.0, 0.0); gn];
+            let zs = vec![Grad::new(z, 0.0, 0.0, 1.0); gn];
+            let r = vharness::catch(std::panic::AssertUnwindSafe(|| ge.eval_raw(&tape, &xs, &ys, &zs, None, fidget_core::shape::ShapeBulkEval::<F::GradSliceEval>::var_value(&sv)).map(|o| o.to_vec()).map_err(|er| format!("{er}"))));
+            let r = r.unwrap_or_else(|m| Err(format!("panic: {m}")));
+            if gn == 2 || r.is_err() {
+                emit_rec(w, id, &base, "grad", false, r.map(|o| json!(o.iter().map(gbits).collect::<Vec<_>>())));
+            }
+        }
+    }
+}
+
 fn main() {
     let args: Vec<String> = std::env::args().collect();
     let cases = read_cases(&args[1]);
@@ -295,6 +429,10 @@ fn main() {
             run_case::<JitFunction>(&mut file, &mut id, "jit", &c, rng.below(6), &mut rng);
         }
     }
+    // histories: recycled storage across variable orders, one bulk evaluator across variable counts
+    let rounds = if quick { 24 } else { 240 };
+    run_histories::<VmFunction>(&mut file, &mut id, "vm", &mut rng, rounds);
+    run_histories::<JitFunction>(&mut file, &mut id, "jit", &mut rng, rounds);
     file.flush().unwrap();
     eprintln!("c14: {id} records");
 }
